@@ -949,7 +949,10 @@ class Judge:
                            f'{level} diff', at=list(path), element=name, expected_flags=self.expflags(em),
                            observed_flags=sorted(obs), edits=em.get('edits'))
                 elif got and not exp:
-                    key = em['why'].get(f) or f'{level}-{em["kind"]}-{f.lower()}-spurious'
+                    key = em['why'].get(f)
+                    if callable(key):
+                        key = key()
+                    key = key or f'{level}-{em["kind"]}-{f.lower()}-spurious'
                     self.v(key, f'{f} reported by the {level} diff for a {em["kind"]} whose {f} did not change',
                            at=list(path), element=name, expected_flags=self.expflags(em), observed_flags=sorted(obs),
                            edits=em.get('edits'))
@@ -1023,7 +1026,7 @@ class Judge:
         self.modified('node', o, ('node',), expmap)
         return o
 
-    def iface_bits(self, p):
+    def iface_bits(self, p, sa, sb):
         """expectation for an interface p (nif/cif) present on both sides, as reported by its service's diff."""
         it = self.it
         i = find(it.old, p)
@@ -1039,10 +1042,29 @@ class Judge:
         else:
             bits['SUB_INTERFACES'] = 0
             if i['itype'] == 'DedicatedPort':
-                if ed:
-                    why['SUB_INTERFACES'] = 'dedicated-port-own-change-reported-as-sub-interfaces'
-                elif any(under(q, p) for q in self.eq_ud):
-                    why['SUB_INTERFACES'] = 'equal-user-data-reported-as-sub-interfaces'
+                sub_eq = any(q != p and under(q, p) for q in self.eq_ud)
+                own = bool(ed) or p in self.eq_ud
+
+                def diagnose():
+                    """Which mechanism makes the service diff flag SUB_INTERFACES although no sub-interface changed?
+                    Look at what the interface's own diff says about its sub-interfaces: if it (spuriously) lists
+                    sub-interfaces with equal user data as modified, that alone explains the flag; otherwise the flag
+                    can only come from the interface's own (real, or equal-user-data) property difference."""
+                    ia = sa.interface_info.get_interface(p[2])
+                    ib = sb.interface_info.get_interface(p[2])
+                    try:
+                        oc = observe(ia.diff(ib))
+                    except Exception:                          # noqa
+                        return None
+                    subnames = {u['name'] for u in i['subs']}
+                    listed = {n for bk in BUCKETS for n, _ in oc['modified'][bk]} & subnames
+                    if sub_eq and listed:
+                        return 'equal-user-data-reported-as-sub-interfaces'
+                    if own and not listed and not oc['added']['interfaces'] and not oc['removed']['interfaces']:
+                        return 'dedicated-port-own-change-reported-as-sub-interfaces'
+                    return None
+                if sub_eq or own:
+                    why['SUB_INTERFACES'] = diagnose
         return {'kind': 'interface', 'bucket': 'interfaces', 'bits': bits, 'why': why,
                 'edits': ed + [list(q) for q in sorted(subs_ar + subs_ch)]}
 
@@ -1066,7 +1088,7 @@ class Judge:
         expmap[find(it.old, sp)['name']] = {'kind': 'service', 'bucket': 'services', 'bits': bits, 'why': why, 'edits': ed}
         for p in it.common():
             if p[0] == ik and p[1] == sp[1]:
-                expmap[p[2]] = self.iface_bits(p)
+                expmap[p[2]] = self.iface_bits(p, a, b)
         self.modified('service', o, sp, expmap)
         return o
 
